@@ -154,8 +154,11 @@ class Scheduler(Subject):
             data: The data which the observers will receive.
         """
 
-        for observer in self.observers:
-            observer.update(notification_type, data)
+        # an observer may attach or detach observers (also itself) while it is updated:
+        # iterate over a copy so that nobody is skipped, but leave out detached ones
+        for observer in list(self.observers):
+            if observer in self.observers:
+                observer.update(notification_type, data)
 
     def start(self) -> bool:
         """Starts the scheduling process for the given PFDL file from the path.
